@@ -59,10 +59,8 @@ func parseClusterNodes(data string) (map[string]*instance, error) {
 			continue
 		}
 
-		// attach slots to master node
-		if len(fields) < 9 {
-			return nil, errInvalidClusterNodes
-		}
+		// attach slots to master node, a master may serve no slots at all
+		// (e.g. a node which has just joined the cluster).
 		slots, err := parseClusterNodesSlot(fields[8:])
 		if err != nil {
 			return nil, err
